@@ -16,7 +16,17 @@ Monitors
 * input immutability: byte hashes of every array and a topology fingerprint of the INPUT before and after each of ~45
   analysis/save calls; fields documented as modified in place (rmsd/rmsf/superpose/center_coordinates/lprmsd centre or
   move xyz; inplace=True variants) are exempt for exactly those fields.
-In-place pokes into the arrays (t.xyz[0] += 1) are documented unsafe and are not part of the alphabet."""
+In-place pokes into the arrays (t.xyz[0] += 1) are documented unsafe and are not part of the alphabet.
+
+Wider alphabet (cases with alphabet="wide", audit table in the docstring of _wide_op): key kinds / dtypes / layouts of __getitem__, zero-frame
+results, list / generator / option forms of join and md.join, one object in two roles (t.join(t), t + t, t.stack(t), superpose on itself),
+t += other, other operands that carry a history of their own, index containers of atom_slice and its deprecated twin restrict_atoms,
+remove_solvent(exclude), superpose with selections, smooth, make_molecules_whole, image_molecules, save / save+load / pickle / deepcopy in the
+middle of a history, assignments with other dtypes / ranks, unitcell_vectors=, and two more observers: the object in only ONE role of a
+precentered rmsd, and analysis results on the object vs on a Trajectory built from scratch from the same arrays.  The immutability table
+has a wider twin (IMMUTABLE_WIDE: ~55 more analysis / save entry points and option values).
+Finding of the wider alphabet on the unchanged tree: make_molecules_whole and image_molecules (inplace or not) move atoms in the array without
+dropping the cached traces (keys stale-rmsd-traces-after:make_molecules_whole / :image_molecules)."""
 from __future__ import annotations
 
 import atexit
@@ -34,16 +44,25 @@ LEVEL = "exploration"
 NATIVE = ["mdtraj._rmsd", "mdtraj.geometry._geometry"]
 RULE = ("case = seeded random operation history (length 3..8 quick, ..25 thorough) over a centro-symmetric trajectory "
         "(3..40 frames, 6..60 atoms, with/without cell, protein+water topology), or one (function, trajectory) pair of the "
-        "input-immutability table; non-trivial = at least one model/memory/trace comparison decided; distinct = descriptors")
+        "input-immutability table; non-trivial = at least one model/memory/trace comparison decided; distinct = descriptors; "
+        "histories with alphabet=wide draw from the extended operation list (see _wide_op) over topologies with ions and molecules of several sizes")
 WORKERS = {"quick": 8, "thorough": 16}
 BUDGET = {"quick": 90, "thorough": 1200}
 ENV = {"OMP_NUM_THREADS": "2"}
-FLOORS = {"quick": {"model.fields": 1500, "memory.xyz": 700, "traces.precentered-vs-scratch": 200, "immutable.input": 40}}
+FLOORS = {"quick": {"model.fields": 1500, "memory.xyz": 700, "traces.precentered-vs-scratch": 200, "immutable.input": 40,
+                    "observer.analysis-vs-scratch": 300}}
 ASSUMPTIONS = ["precentered=True is judged only on coordinates that are centred (centro-symmetric construction keeps them so)",
                "float arithmetic of center_coordinates/superpose is not modelled: after them the model adopts the real xyz once "
                "centroid / rigidity have been checked"]
 OPS = ["int", "negint", "slice", "revslice", "index", "mask", "slice_nocopy", "join", "plus", "mdjoin", "join_overlap", "stack", "atom_slice",
        "atom_slice_inplace", "center", "center_mw", "superpose", "remove_solvent", "set_xyz", "set_time", "set_cell", "obs_rmsd"]
+# wider alphabet (cases with alphabet="wide"): the original operations plus every other public way of producing / editing a
+# Trajectory that the original alphabet never used (see the audit in the docstring of _wide_op)
+WIDE_ONLY = ["w_key", "w_key", "w_empty", "w_slice_nocopy_fancy", "w_join_list", "w_join_nocheck", "w_mdjoin_opts", "w_join_self", "w_join_self",
+             "w_stack_self", "w_stack_opts", "w_iadd", "w_atom_container", "w_atom_container", "w_remove_solvent_exclude", "w_superpose_sel",
+             "w_superpose_self", "w_smooth", "w_whole", "w_image", "w_save", "w_save", "w_copy", "w_copy", "w_set_variants", "w_obs_other",
+             "w_obs_other", "w_obs_analysis"]
+OPS_WIDE = OPS + WIDE_ONLY
 _TMP = None
 
 
@@ -59,6 +78,18 @@ def gen_cases(tier, seed):
     for r in range(reps):
         for j, name in enumerate(IMMUTABLE_NAMES):
             yield dict(i=r * 100 + j, kind="immutable", fn=name, seed=common.case_seed(seed, "C03i", r * 100 + j), variant=r)
+        for j, name in enumerate(IMMUTABLE_WIDE):
+            yield dict(i=200000 + r * 100 + j, kind="immutable", fn=name, seed=common.case_seed(seed, "C03iw", r * 100 + j), variant=r + (j % 2))
+    # pairs with a function of the wider table on either side (f pure)
+    pure_w = [n for n in IMMUTABLE_WIDE if n not in IN_PLACE_WIDE]
+    allnames = IMMUTABLE_NAMES + IMMUTABLE_WIDE
+    rngw = common.rng_for("C03pairsW", seed)
+    npw = 160 if tier == "quick" else 4000
+    for j in range(npw):
+        f = pure_w[int(rngw.integers(len(pure_w)))] if j % 2 == 0 else [n for n in IMMUTABLE_NAMES if n not in IN_PLACE_DOCUMENTED][int(rngw.integers(len(IMMUTABLE_NAMES) - len(IN_PLACE_DOCUMENTED)))]
+        g = allnames[int(rngw.integers(len(allnames)))] if j % 2 == 0 else IMMUTABLE_WIDE[int(rngw.integers(len(IMMUTABLE_WIDE)))]
+        if f != g:
+            yield dict(i=210000 + j, kind="pair", f=f, g=g, seed=common.case_seed(seed, "C03pw", j), variant=j % 2)
     # observational immutability over pairs: g(t) must not depend on whether f(t) was called before on the same objects
     pure = [n for n in IMMUTABLE_NAMES if n not in IN_PLACE_DOCUMENTED]
     if tier == "quick":
@@ -96,6 +127,11 @@ def gen_cases(tier, seed):
         yield dict(i=100000 + i, kind="history", seed=common.case_seed(seed, "C03", i), n_frames=int(rng.integers(3, 41)),
                    n_pairs=int(rng.integers(3, 31)), sym=bool(rng.random() < 0.55), odd=int(rng.integers(0, 2)), cell=bool(rng.random() < 0.6),
                    length=int(rng.integers(3, 9 if tier == "quick" else 26)))
+    for i in range(1300 if tier == "quick" else 20000):
+        rng = common.rng_for("C03w", seed, i)
+        yield dict(i=300000 + i, kind="history", alphabet="wide", seed=common.case_seed(seed, "C03w", i), n_frames=int(rng.choice([1, 2, 3, 5, 9, 12, 20, 33])),
+                   n_pairs=int(rng.integers(3, 25)), sym=bool(rng.random() < 0.6), odd=int(rng.integers(0, 2)), cell=bool(rng.random() < 0.7),
+                   length=int(rng.integers(3, 9 if tier == "quick" else 20)))
 
 
 # ------------------------------------------------------------------------------------------------ trajectories
@@ -125,6 +161,51 @@ def sym_topology(n_pairs, rng):
     return top, ids
 
 
+def sym_topology_wide(n_pairs, rng):
+    """as sym_topology, plus single-pair ion residues (NA / CL: solvent types of remove_solvent) and bonds that make molecules of
+    different sizes (all pairs of a protein residue form one molecule, consecutive protein residues of a chain are sometimes
+    linked), so that find_molecules / guess_anchor_molecules / image_molecules have something to work with"""
+    import mdtraj as md
+    from mdtraj.core import element as elem
+    top = md.Topology()
+    ch = top.add_chain()
+    ids = []
+    k = 0
+    prev_last = None
+    links = []
+    while k < n_pairs:
+        u = rng.random()
+        kind = "HOH" if u < 0.2 else ("NA" if u < 0.27 else ("CL" if u < 0.34 else "prot"))
+        npair = min(1 if kind != "prot" else int(rng.integers(1, 5)), n_pairs - k)
+        res = top.add_residue(kind if kind != "prot" else ["ALA", "GLY", "LYS"][int(rng.integers(3))], ch)
+        first = None
+        for p in range(npair):
+            for s in (0, 1):
+                el = {"HOH": elem.oxygen, "NA": elem.sodium, "CL": elem.chlorine}.get(kind, elem.carbon)
+                a = top.add_atom({"HOH": "O", "NA": "NA", "CL": "CL"}.get(kind, ["CA", "CB", "N", "C"][(2 * p + s) % 4]), el, res)
+                first = first if first is not None else a
+                ids.append(2 * k + s)
+            k += 1
+        if kind == "prot":
+            ra = list(res.atoms)
+            for a, b in zip(ra[1:-1:2], ra[2::2]):
+                links.append((a, b))
+            if prev_last is not None and rng.random() < 0.5:
+                links.append((prev_last, first))
+            prev_last = ra[-1]
+        else:
+            prev_last = None
+        if rng.random() < 0.25:
+            ch = top.add_chain()
+            prev_last = None
+    atoms = list(top.atoms)
+    for a in range(0, len(atoms) - 1, 2):
+        top.add_bond(atoms[a], atoms[a + 1])
+    for a, b in links:
+        top.add_bond(a, b)
+    return top, ids
+
+
 def sym_xyz(rng, n_frames, n_pairs):
     h = rng.normal(scale=1.0, size=(n_frames, n_pairs, 3)).astype(np.float32)
     xyz = np.empty((n_frames, 2 * n_pairs, 3), np.float32)
@@ -141,10 +222,10 @@ def gen_xyz(rng, n_frames, n_atoms, sym):
     return (rng.normal(scale=1.0, size=(n_frames, n_atoms, 3)) + rng.uniform(-2, 2, (n_frames, 1, 3))).astype(np.float32)
 
 
-def make(rng, n_frames, n_atoms, cell, top=None, ids=None, sym=True):
+def make(rng, n_frames, n_atoms, cell, top=None, ids=None, sym=True, wide=False):
     import mdtraj as md
     if top is None:
-        top, ids = sym_topology((n_atoms + 1) // 2, rng)
+        top, ids = (sym_topology_wide if wide else sym_topology)((n_atoms + 1) // 2, rng)
         if top.n_atoms != n_atoms:  # odd atom count: drop the last atom
             top = top.subset(list(range(n_atoms)))
             ids = ids[:n_atoms]
@@ -231,6 +312,12 @@ def msd_scratch(x, r):
     return md.rmsd(a, b, 0).astype(np.float64) ** 2
 
 
+def _flat_frames(c):
+    """per frame of centred float64 coordinates (n_frames, n_atoms, 3): smallest / largest singular value below 1e-3"""
+    ev = np.linalg.eigvalsh(np.einsum("fai,faj->fij", c, c))
+    return ev[:, 0] <= 1e-6 * np.maximum(ev[:, 2], 1e-300)
+
+
 def observe_rmsd(ctx, t, m, hist):
     """md.rmsd(t, t, frame, precentered=True) vs RMSD from scratch on fresh copies.
 
@@ -248,7 +335,7 @@ def observe_rmsd(ctx, t, m, hist):
         got = md.rmsd(t, t, fr, precentered=True).astype(np.float64) ** 2
     except Exception as e:
         ctx.violation("traces.precentered-vs-scratch", f"rmsd(precentered=True):raises:{type(e).__name__}", f"after {hist['ops']}: {e!r}")
-        return
+        return False
     ref = msd_scratch(raw, raw[fr:fr + 1])
     N = raw.shape[1]
     c = raw.astype(np.float64) - raw.astype(np.float64).mean(axis=1, keepdims=True)
@@ -256,13 +343,24 @@ def observe_rmsd(ctx, t, m, hist):
     off = float(np.abs(raw).max())
     tol = 2e-4 * (G + G[fr]) / N + 1e-9 + 64 * (2.0 ** -24 * off) ** 2
     bad = np.abs(got - ref) > tol
+    # exactly planar / collinear frames (two centro-symmetric pairs left after atom slicing): the largest root of the QCP quartic is
+    # (nearly) double there and moves like sqrt(eps32), far above the 2e-4 relative tolerance, which assumes a separated spectrum.
+    # Such frames are outside what this tolerance can decide: not judged (all of them when the reference frame itself is flat)
+    flat = _flat_frames(c)
+    all_undecided = False
+    if flat.any() and got.shape == ref.shape:
+        undecided = flat | flat[fr]
+        ctx.skip("traces.precentered-vs-scratch", "planar or collinear frame: QCP root conditioning ~ sqrt(eps32), not decidable at this tolerance", int(undecided.sum()))
+        bad = bad & ~undecided
+        all_undecided = bool(undecided.all())
     ctx.observe("precentered_call", "cached-traces" if had_traces else "no-traces(fallback)")
+    verdict = not (got.shape != ref.shape or bad.any())
     if got.shape != ref.shape or bad.any():
         j = int(np.argmax(bad)) if got.shape == ref.shape else -1
         cause = next((o for o in reversed(hist["since_center"])), "none")
         ctx.violation("traces.precentered-vs-scratch", f"stale-rmsd-traces-after:{cause}" if had_traces else f"rmsd(precentered=True):no-traces:wrong-after:{cause}",
                       f"rmsd(precentered=True) differs from rmsd from scratch after {hist['ops']}: msd {got[j]:.6g} vs {ref[j]:.6g} (tol {tol[j]:.2g})")
-    else:
+    elif not all_undecided:
         ctx.ok("traces.precentered-vs-scratch")
     if not np.array_equal(t.xyz, raw):
         x = np.asarray(t.xyz, np.float64)
@@ -273,6 +371,7 @@ def observe_rmsd(ctx, t, m, hist):
             ctx.observe("rmsd_centred_target_in_place", "yes")
         else:
             ctx.violation("traces.precentered-modifies", "rmsd(precentered=True):distorts-xyz", "rmsd(precentered=True) changed the coordinates by more than a per-frame translation")
+    return verdict
 
 
 def observe_as_reference(ctx, t, m, hist):
@@ -302,6 +401,533 @@ def observe_as_reference(ctx, t, m, hist):
                       f"coordinates (max {float(np.abs(a - b).max()):.4g} nm) after {hist['ops']}")
     check_fields(ctx, t, m, "superpose(other, reference=this)", exact=True)
 
+# ------------------------------------------------------------------------------------------------ wide alphabet
+def _cat(ms):
+    return dict(xyz=np.concatenate([x["xyz"] for x in ms]), time=np.concatenate([x["time"] for x in ms]),
+                L=None if ms[0]["L"] is None else np.concatenate([x["L"] for x in ms]),
+                A=None if ms[0]["A"] is None else np.concatenate([x["A"] for x in ms]), ids=ms[0]["ids"])
+
+
+def _fresh_from_model(t, m):
+    import mdtraj as md
+    return md.Trajectory(np.array(m["xyz"], copy=True), t.topology.copy(), time=np.array(m["time"], copy=True),
+                         unitcell_lengths=None if m["L"] is None else np.array(m["L"], copy=True),
+                         unitcell_angles=None if m["A"] is None else np.array(m["A"], copy=True))
+
+
+def _other(rng, t, m, hist, sym, nfr=None, centre_p=0.7):
+    na = m["xyz"].shape[1]
+    nfr = int(rng.integers(2, 6)) if nfr is None else nfr
+    derived = rng.random() < 0.35  # the OTHER operand has a history of its own: cut out of a longer (centred) trajectory, reversed / strided
+    o, om = make(rng, 2 * nfr + 1 if derived else nfr, na, m["L"] is not None, top=t.topology, ids=m["ids"], sym=sym and na % 2 == 0)
+    if hist["centered_once"] and rng.random() < centre_p:
+        o.center_coordinates()
+        om["xyz"] = np.array(o.xyz, copy=True)
+    if derived:
+        key = slice(None, None, -2) if rng.random() < 0.5 else slice(1, None, 2)
+        sel = list(range(2 * nfr + 1))[key][:nfr]
+        o = o[key][:nfr] if rng.random() < 0.5 else o[np.array(sel)]
+        om = _index(om, sel)
+        ctx_observe = hist.get("ctx")
+        if ctx_observe is not None:
+            ctx_observe.observe("wide.other_operand", "cut out of a longer trajectory (carries sliced traces)")
+    return o, om
+
+
+def _wide_op(ctx, t, m, op, rng, hist, step, sym):
+    """Operations the original alphabet never used.  Returns None (not applicable here / legitimately refused) or a dict
+    out, m2, label, strict, exact, src (None = in place), memcheck, after.
+
+    audit (public ways to obtain or edit a Trajectory; * = added here):
+      __getitem__/slice keys   int, -int, slice, reversed slice, int64 array / list, bool ndarray            (original)
+                               * numpy integer scalars, negative entries in index arrays, int32/int16/uint8/intp index dtypes,
+                               * strided (non-contiguous) index views, python lists of bools, open-ended / negative /
+                               * out-of-range slice bounds, results with zero frames, slice(copy=False) with int / index array
+      join / + / md.join       one Trajectory operand, md.join(list)                                          (original)
+                               * t.join([a, b]) list form, check_topology=False (topology of self must be kept),
+                               * md.join(generator), discard_overlapping_frames over several pieces (both entry points),
+                               * the object joined with itself (t.join(t), t + t, md.join([t, t, t])), t += other
+      stack                    fresh operand without cell                                                     (original)
+                               * t.stack(t), keep_resSeq=False, operand with a cell of its own (left operand rule)
+      atom_slice               sorted int64 ndarray                                                           (original)
+                               * list / tuple / range / int32 / uint16 / strided view containers, restrict_atoms (deprecated twin)
+      remove_solvent           exclude=None                                                                   (original)  * exclude=[names]
+      superpose                all atoms onto a fresh 2-frame reference                                       (original)
+                               * atom_indices / ref_atom_indices / parallel, reference = the object itself
+      smooth, make_molecules_whole, image_molecules (inplace in {False, True})                                * all new
+      save in the middle of a history (object must stay as it was), save + load (h5) and continue with the loaded object  * new
+      pickle / copy.deepcopy / copy.copy of the Trajectory, continue with the copy                            * new
+      xyz / time / cell assignment with float64, nested lists, deficient ndim (single frame), scalar time      * new
+      observers: the object only as REFERENCE / only as TARGET of a precentered rmsd against another centred trajectory;  * new
+                 analysis / derived attributes on the object vs on a Trajectory built from scratch from the same arrays
+      left out: openmm_positions / openmm_boxes (openmm not importable here), topology= assignment (not an array field),
+                in-place pokes into .xyz (documented unsafe)."""
+    import copy as _copy
+    import pickle
+    import warnings
+    import mdtraj as md
+    nf, na = m["xyz"].shape[:2]
+    symok = sym and na % 2 == 0
+    R = dict(strict=False, exact=True, src=t)
+
+    if op == "w_key":
+        kind = ["np.integer", "index:negative", "index:small-dtype", "index:strided-view", "bool-list", "slice:open-ended"][int(rng.integers(6))]
+        if kind == "np.integer":
+            k = int(rng.integers(0, nf))
+            key = [np.int64(k), np.int32(k - nf), np.intp(k), np.uint8(k % 200)][int(rng.integers(4))]
+            sel = [int(key) % nf]
+        elif kind == "index:negative":
+            sel0 = rng.integers(-nf, nf, int(rng.integers(1, nf + 3)))
+            key = sel0.astype([np.int32, np.int64][int(rng.integers(2))])
+            if rng.random() < 0.4:
+                key = [int(x) for x in key]
+            sel = [int(x) % nf for x in sel0]
+        elif kind == "index:small-dtype":
+            sel = [int(x) for x in rng.integers(0, min(nf, 120), int(rng.integers(1, nf + 3)))]
+            key = np.array(sel, dtype=[np.uint8, np.int16, np.uint32, np.intp][int(rng.integers(4))])
+        elif kind == "index:strided-view":
+            base = rng.integers(0, nf, 2 * int(rng.integers(1, nf + 2)))
+            key = base[::2]
+            sel = [int(x) for x in key]
+        elif kind == "bool-list":
+            mask = rng.random(nf) < 0.6
+            mask[int(rng.integers(0, nf))] = True
+            key = [bool(x) for x in mask]
+            sel = list(np.where(mask)[0])
+        else:
+            k = int(rng.integers(1, nf + 1))
+            key = [slice(None, None, 2), slice(-k, None), slice(None, -k), slice(k - 1, nf + 7), slice(None, None, -1), slice(-nf - 3, k),
+                   slice(None, None, -2), slice(None), slice(nf + 5, None, -3)][int(rng.integers(9))]
+            sel = list(range(nf))[key]
+            if not sel:
+                return None
+        ctx.observe("wide.key", kind)
+        R.update(out=t[key], m2=_index(m, sel), label=f"getitem[{kind}]", strict=True)
+        return R
+    if op == "w_empty":
+        key = [slice(0, 0), slice(nf, None), slice(nf - 1, 0) if nf > 1 else slice(0, 0), np.zeros(nf, bool), []][int(rng.integers(5))]
+        if isinstance(key, list):
+            key = np.array([], dtype=int)
+        out = t[key]
+        hist["ops"].append("getitem[zero-frames]")
+        ctx.observe("op", "getitem[zero-frames]")
+        check_fields(ctx, out, _index(m, []), "getitem[zero-frames]", exact=True)
+        check_fields(ctx, t, m, "getitem[zero-frames]:source", exact=True)
+        return None
+    if op == "w_slice_nocopy_fancy":
+        if rng.random() < 0.5:
+            k = int(rng.integers(0, nf))
+            key, sel, what = k, [k], "int"
+        else:
+            sel = [int(x) for x in rng.integers(0, nf, int(rng.integers(1, nf + 2)))]
+            key, what = np.array(sel), "index-array"
+        R.update(out=t.slice(key, copy=False), m2=_index(m, sel), label=f"slice(copy=False)[{what}]", memcheck=False)
+        return R
+    if op in ("w_join_list", "w_join_nocheck", "w_mdjoin_opts", "w_iadd"):
+        if op == "w_join_nocheck":
+            o, om = _other(rng, t, m, hist, sym)
+            o2 = md.Trajectory(o.xyz.copy(), common.simple_topology(na), time=o.time.copy(), unitcell_lengths=None if o.unitcell_lengths is None else o.unitcell_lengths.copy(),
+                               unitcell_angles=None if o.unitcell_angles is None else o.unitcell_angles.copy())
+            names = [(a.name, a.residue.name) for a in t.topology.atoms]
+            if rng.random() < 0.5:
+                out, label = t.join(o2, check_topology=False), "join(check_topology=False)"
+            else:
+                out, label = md.join([t, o2], check_topology=False), "md.join(check_topology=False)"
+            ctx.check([(a.name, a.residue.name) for a in out.topology.atoms] == names, "model.fields", f"{label}:topology-is-not-that-of-self",
+                      f"{label}: the result does not carry the topology of the left operand")
+            R.update(out=out, m2=_cat([m, om]), label=label, strict=True)
+            check_memory(ctx, out, o2, label + "(other)", False)
+            return R
+        if op == "w_iadd":
+            o, om = _other(rng, t, m, hist, sym)
+            u = t
+            u += o
+            if u is t:
+                ctx.violation("model.fields", "iadd:modifies-the-left-operand-object", "t += other returned the same object")
+            R.update(out=u, m2=_cat([m, om]), label="iadd", strict=True)
+            check_memory(ctx, u, o, "iadd(other)", True)
+            return R
+        k = int(rng.integers(2, 4))
+        pieces = [_other(rng, t, m, hist, sym, centre_p=1.0 if op == "w_mdjoin_opts" else 0.7) for _ in range(k)]
+        others, oms = [p[0] for p in pieces], [p[1] for p in pieces]
+        if op == "w_join_list":
+            out, label = t.join(others), "join(list)"
+            ms = [m] + oms
+        else:
+            variant = ["generator", "overlap-md.join", "overlap-join(list)"][int(rng.integers(3))]
+            if variant == "generator":
+                out, label = md.join(x for x in [t] + others), "md.join(generator)"
+                ms = [m] + oms
+            else:
+                # plant overlaps: the first frame of some pieces repeats the last frame of the piece before
+                seq = [(t, m)] + pieces
+                for j in range(1, len(seq)):
+                    if rng.random() < 0.6:
+                        o, om = seq[j]
+                        x0 = np.array(o.xyz, copy=True)
+                        x0[0] = seq[j - 1][0].xyz[-1]
+                        o.xyz = x0
+                        om["xyz"] = np.array(o.xyz, copy=True)
+                ms = []
+                for j in range(len(seq)):
+                    mj = seq[j][1]
+                    if j + 1 < len(seq) and mj["xyz"].shape[0] > 0 and np.all(np.abs(seq[j + 1][1]["xyz"][0] - mj["xyz"][-1]) < 2e-3):
+                        mj = _index(mj, list(range(mj["xyz"].shape[0] - 1)))
+                    ms.append(mj)
+                if variant == "overlap-md.join":
+                    out, label = md.join([t] + others, discard_overlapping_frames=True), "md.join(discard_overlapping_frames)"
+                else:
+                    out, label = t.join(others, discard_overlapping_frames=True), "join(list,discard_overlapping_frames)"
+        R.update(out=out, m2=_cat(ms), label=label, strict=True)
+        for o in others:
+            check_memory(ctx, out, o, label + "(other)", True)
+        return R
+    if op == "w_join_self":
+        variant = int(rng.integers(4))
+        if variant == 0:
+            out, label, ms = t.join(t), "join(self)", [m, m]
+        elif variant == 1:
+            out, label, ms = t + t, "add(self)", [m, m]
+        elif variant == 2:
+            out, label, ms = md.join([t, t, t]), "md.join([self,self,self])", [m, m, m]
+        else:
+            o, om = _other(rng, t, m, hist, sym)
+            out, label, ms = t.join([t, o]), "join([self,other])", [m, m, om]
+        R.update(out=out, m2=_cat(ms), label=label, strict=True)
+        return R
+    if op == "w_stack_self":
+        out = t.stack(t)
+        R.update(out=out, m2=dict(xyz=np.hstack([m["xyz"], m["xyz"]]), time=m["time"], L=m["L"], A=m["A"], ids=m["ids"] + [20000 + i for i in m["ids"]]),
+                 label="stack(self)")
+        return R
+    if op == "w_stack_opts":
+        o, om = make(rng, nf, 2 * int(rng.integers(1, 4)), bool(rng.random() < 0.6))
+        keep = bool(rng.random() < 0.5)
+        out = t.stack(o, keep_resSeq=keep)
+        ctx.observe("wide.stack", f"other has cell={om['L'] is not None}, self has cell={m['L'] is not None}, keep_resSeq={keep}")
+        R.update(out=out, m2=dict(xyz=np.hstack([m["xyz"], om["xyz"]]), time=m["time"], L=m["L"], A=m["A"], ids=m["ids"] + [30000 + 100 * step + i for i in om["ids"]]),
+                 label="stack(other with own cell/keep_resSeq)")
+        check_memory(ctx, out, o, "stack(other)", False)
+        return R
+    if op == "w_atom_container":
+        if symok:
+            npair = na // 2
+            keep = np.where(rng.random(npair) < 0.7)[0]
+            if len(keep) < 2:
+                keep = np.arange(min(2, npair))
+            idx = np.sort(np.concatenate([2 * keep, 2 * keep + 1]))
+        else:
+            idx = np.where(rng.random(na) < 0.7)[0]
+            if len(idx) < 3:
+                idx = np.arange(min(3, na))
+        cont = ["list", "tuple", "range", "int32", "uint16", "strided-view"][int(rng.integers(6))]
+        if cont == "range":
+            lo = int(rng.integers(0, max(1, na // 2 - 1))) * (2 if symok else 1)
+            hi = min(na, lo + max(4, 2 * int(rng.integers(1, na // 2 + 1))))
+            idx = np.arange(lo, hi)
+            arg = range(lo, hi)
+        elif cont == "list":
+            arg = [int(i) for i in idx]
+        elif cont == "tuple":
+            arg = tuple(int(i) for i in idx)
+        elif cont == "int32":
+            arg = idx.astype(np.int32)
+        elif cont == "uint16":
+            arg = idx.astype(np.uint16)
+        else:
+            arg = np.repeat(idx, 2)[::2]
+        ctx.observe("wide.atom_indices_container", cont)
+        twin = rng.random() < 0.35
+        inplace = bool(rng.random() < 0.5)
+        with warnings.catch_warnings():
+            warnings.simplefilter("ignore")
+            if twin:
+                out = t.restrict_atoms(arg) if inplace else t.restrict_atoms(arg, inplace=False)
+            else:
+                out = t.atom_slice(arg, inplace=inplace)
+        label = f"{'restrict_atoms' if twin else 'atom_slice'}(inplace={inplace})"
+        if inplace and out is not t:
+            ctx.violation("model.fields", f"{label}:does-not-return-self", f"{label} returned another object")
+        R.update(out=out, m2=dict(xyz=m["xyz"][:, idx], time=m["time"], L=m["L"], A=m["A"], ids=[m["ids"][i] for i in idx]), label=label, strict=True,
+                 src=None if inplace else t)
+        return R
+    if op == "w_remove_solvent_exclude":
+        present = sorted({a.residue.name for a in t.topology.atoms} & {"HOH", "NA", "CL"})
+        if not present:
+            return None
+        exclude = [x for x in present if rng.random() < 0.6] or present[:1]
+        gone = set(present) - set(exclude)
+        keep = [a.index for a in t.topology.atoms if a.residue.name not in gone]
+        if len(keep) < 4:
+            return None
+        inplace = bool(rng.random() < 0.3)
+        arg = exclude if rng.random() < 0.5 else tuple(exclude)
+        out = t.remove_solvent(exclude=arg, inplace=inplace)
+        ctx.observe("wide.remove_solvent_exclude", "+".join(exclude))
+        R.update(out=out, m2=dict(xyz=m["xyz"][:, keep], time=m["time"], L=m["L"], A=m["A"], ids=[m["ids"][i] for i in keep]),
+                 label=f"remove_solvent(exclude,inplace={inplace})", strict=True, src=None if inplace else t)
+        return R
+    if op in ("w_superpose_sel", "w_superpose_self"):
+        before = np.array(t.xyz, copy=True)
+        n_sel = int(rng.integers(3, na + 1))
+        ai = rng.permutation(na)[:n_sel]
+        kw = dict(atom_indices=ai if rng.random() < 0.7 else [int(i) for i in ai], parallel=bool(rng.random() < 0.5))
+        if op == "w_superpose_self":
+            if rng.random() < 0.5:
+                kw.pop("atom_indices")
+            out = t.superpose(t, frame=int(rng.integers(0, nf)), **kw)
+            label = "superpose(reference=self)"
+        else:
+            ref, _ = make(rng, 2, na + int(rng.integers(0, 3)), False, sym=False)
+            ref.xyz = (ref.xyz + rng.uniform(-3, 3, (1, 1, 3))).astype(np.float32)
+            if rng.random() < 0.6 or ref.n_atoms != na:
+                kw["ref_atom_indices"] = rng.permutation(ref.n_atoms)[:n_sel]
+            out = t.superpose(ref, frame=int(rng.integers(0, 2)), **kw)
+            label = "superpose(atom_indices)"
+        if out is not t:
+            ctx.violation("model.fields", f"{label}:does-not-return-self", f"{label} returned another object")
+        d0 = np.linalg.norm(before[:, 1:] - before[:, :-1], axis=-1)
+        d1 = np.linalg.norm(t.xyz[:, 1:] - t.xyz[:, :-1], axis=-1)
+        ctx.check(bool(np.abs(d0 - d1).max() < 1e-4 * max(1.0, np.abs(before).max())), "superpose.rigid", "superpose:not-rigid", "superpose changed interatomic distances")
+        R.update(out=t, m2=dict(m, xyz=np.array(t.xyz, copy=True)), label=label, src=None)
+        return R
+    if op == "w_smooth":
+        if nf < 6:
+            return None
+        width, order = int(rng.integers(3, 6)), int(rng.integers(1, 4))
+        sel = None if rng.random() < 0.5 else sorted(int(i) for i in rng.permutation(na)[: int(rng.integers(1, na))])
+        inplace = bool(rng.random() < 0.5)
+        try:
+            with warnings.catch_warnings():
+                warnings.simplefilter("ignore")
+                ret = t.smooth(width, order=order, atom_indices=sel, inplace=inplace)
+        except ValueError as e:
+            ctx.skip("model.fields", f"smooth refused the trajectory ({str(e)[:50]})")
+            return None
+        out = t if inplace else ret
+        label = f"smooth(inplace={inplace})"
+        if inplace:
+            ctx.observe("wide.smooth(inplace=True)-returns", "None" if ret is None else ("self" if ret is t else "other"))
+        if not isinstance(out, md.Trajectory) or out.xyz.shape != m["xyz"].shape:
+            ctx.violation("model.fields", f"{label}:field-mismatch:xyz", f"{label}: wrong result {type(out).__name__}")
+            return None
+        if sel is not None:
+            rest = np.setdiff1d(np.arange(na), sel)
+            ctx.check(bool(np.array_equal(out.xyz[:, rest], m["xyz"][:, rest])), "model.fields", f"{label}:atoms-outside-atom_indices-changed",
+                      f"{label}: atoms outside atom_indices are not bit-identical")
+        R.update(out=out, m2=dict(m, xyz=np.array(out.xyz, copy=True)), label=label, src=None if inplace else t)
+        return R
+    if op in ("w_whole", "w_image"):
+        if m["L"] is None:
+            return None
+        inplace = bool(rng.random() < 0.5)
+        try:
+            if op == "w_whole":
+                out, name = t.make_molecules_whole(inplace=inplace), "make_molecules_whole"
+            else:
+                out, name = t.image_molecules(inplace=inplace, make_whole=bool(rng.random() < 0.7)), "image_molecules"
+        except ValueError as e:
+            ctx.skip("model.fields", f"imaging refused the topology ({str(e)[:40]})")
+            return None
+        label = f"{name}(inplace={inplace})"
+        if inplace and out is not t:
+            ctx.violation("model.fields", f"{label}:does-not-return-self", f"{label} returned another object")
+        if not isinstance(out, md.Trajectory) or out.xyz.shape != m["xyz"].shape:
+            ctx.violation("model.fields", f"{label}:field-mismatch:xyz", f"{label}: wrong result")
+            return None
+        moved = not np.array_equal(out.xyz, m["xyz"])
+        ctx.observe("wide.imaging", f"{name}: {'atoms moved' if moved else 'nothing to move'}")
+
+        def after(t2, m2, name=name, moved=moved):
+            # the cached traces must not survive a public call that moved atoms: observed at once (self-rmsd, then the object as one
+            # operand against a freshly centred trajectory) so that the key names this call
+            hist["since_center"] = [name]
+            hist["ops"].append("obs_rmsd")
+            ok = observe_rmsd(ctx, t2, m2, hist)
+            if ok:
+                hist["last_obs_ok"] = True
+                _wide_op(ctx, t2, m2, "w_obs_other", rng, hist, step, sym)
+                ok = hist["last_obs_ok"]
+            if ok and moved and t2._rmsd_traces is not None:
+                # traces are still attached to moved coordinates but this sample of frames did not show it (e.g. msd clipped at 0):
+                # stop here, a later observation would blame another operation
+                ctx.skip("traces.precentered-vs-scratch", f"traces kept across {name} that moved atoms; not visible in the sampled frames")
+                return False
+            return ok
+        R.update(out=out, m2=dict(m, xyz=np.array(out.xyz, copy=True)), label=label, strict=True, src=None if inplace else t, after=after)
+        return R
+    if op == "w_save":
+        ext = ["h5:reload", "h5", "xtc", "dcd", "nc", "pdb", "gro", "trr", "xyz"][int(rng.integers(9))]
+        d = tempfile.mkdtemp(dir=_TMP)
+        try:
+            path = os.path.join(d, "Mid." + ext.split(":")[0])
+            try:
+                t.save(path)
+            except Exception as e:
+                ctx.skip("model.fields", f"save({ext}) raised {type(e).__name__} in the middle of a history")
+                return None
+            ctx.observe("wide.save_in_history", ext)
+            if ext == "h5:reload":
+                out = md.load(path)
+                R.update(out=out, m2=dict(m, time=np.asarray(m["time"]).astype(np.float32)), label="save(h5)+load", strict=True)  # the format stores float32 times
+                return R
+        finally:
+            shutil.rmtree(d, ignore_errors=True)
+        R.update(out=t, m2=m, label=f"save({ext})", src=None)
+        hist["ops"].append(f"save({ext})")
+        ctx.observe("op", f"save({ext})")
+        check_fields(ctx, t, m, f"save({ext})", exact=True)  # the object itself is untouched; its caches are observed by the rmsd observers
+        return None
+    if op == "w_copy":
+        how = ["pickle", "deepcopy", "copy.copy"][int(rng.integers(3))]
+        out = pickle.loads(pickle.dumps(t, protocol=int(rng.integers(2, pickle.HIGHEST_PROTOCOL + 1)))) if how == "pickle" else \
+            (_copy.deepcopy(t) if how == "deepcopy" else _copy.copy(t))
+        R.update(out=out, m2=m, label=how, strict=True, memcheck=how != "copy.copy")
+        return R
+    if op == "w_set_variants":
+        kind = ["xyz:float64", "xyz:nested-list", "xyz:2d-single-frame", "time:list", "time:scalar", "time:int-array", "cell:float64", "cell:1d-single-frame",
+                "cell:nested-list", "cell:vectors"][int(rng.integers(10))]
+        m2 = dict(m)
+        if kind == "cell:vectors":
+            # the third cell setter: box vectors (rectangular here, so that lengths / angles are known without modelling the conversion)
+            L = rng.uniform(3, 7, (nf, 3))
+            V = np.zeros((nf, 3, 3))
+            V[:, 0, 0], V[:, 1, 1], V[:, 2, 2] = L[:, 0], L[:, 1], L[:, 2]
+            t.unitcell_vectors = V.copy() if rng.random() < 0.5 else V.astype(np.float32)
+            gotL, gotA = t.unitcell_lengths, t.unitcell_angles
+            okv = gotL is not None and gotA is not None and np.shape(gotL) == (nf, 3) and np.shape(gotA) == (nf, 3) and \
+                bool(np.abs(np.asarray(gotL, float) - L).max() < 1e-5) and bool(np.abs(np.asarray(gotA, float) - 90.0).max() < 1e-3)
+            ctx.check(okv, "model.fields", "unitcell_vectors=:lengths-angles-not-those-of-the-vectors", "after unitcell_vectors = rectangular vectors the lengths / angles are not those of the vectors")
+            if not okv:
+                return None
+            # the vectors setter leaves float64 lengths / angles behind (every other path stores float32): bring them to the common
+            # storage type through the lengths / angles setters so that the numpy model of later concatenations stays exact
+            ctx.observe("wide.unitcell_vectors_setter_dtype", str(np.asarray(gotL).dtype))
+            t.unitcell_lengths, t.unitcell_angles = np.array(gotL, copy=True), np.array(gotA, copy=True)
+            m2["L"], m2["A"] = np.array(t.unitcell_lengths, copy=True), np.array(t.unitcell_angles, copy=True)
+            ctx.observe("wide.assignment", kind)
+            R.update(out=t, m2=m2, label="unitcell_vectors=", src=None)
+            return R
+        if kind == "xyz:float64":
+            new = gen_xyz(rng, nf, na, symok).astype(np.float64)
+            t.xyz = new.copy()
+            m2["xyz"] = new.astype(np.float32)
+        elif kind == "xyz:nested-list":
+            if nf * na > 400:
+                return None
+            new = gen_xyz(rng, nf, na, symok)
+            t.xyz = new.tolist()
+            m2["xyz"] = new
+        elif kind == "xyz:2d-single-frame":
+            if nf != 1:
+                return None
+            new = gen_xyz(rng, 1, na, symok)
+            t.xyz = new[0].copy()
+            m2["xyz"] = new
+        elif kind == "time:list":
+            new = np.cumsum(rng.uniform(0.1, 1, nf))
+            t.time = [float(x) for x in new]
+            m2["time"] = new
+        elif kind == "time:scalar":
+            if nf != 1:
+                return None
+            t.time = 7.5
+            m2["time"] = np.array([7.5])
+        elif kind == "time:int-array":
+            new = np.cumsum(rng.integers(1, 4, nf))
+            t.time = new.copy()
+            m2["time"] = new
+        else:
+            L = rng.uniform(3, 7, (nf, 3))
+            A = np.full((nf, 3), 90.0)
+            if kind == "cell:1d-single-frame":
+                if nf != 1:
+                    return None
+                t.unitcell_lengths, t.unitcell_angles = L[0].copy(), A[0].copy()
+            elif kind == "cell:nested-list":
+                t.unitcell_lengths, t.unitcell_angles = L.tolist(), A.tolist()
+            else:
+                t.unitcell_lengths, t.unitcell_angles = L.copy(), A.copy()
+            m2["L"], m2["A"] = L.astype(np.float32), A.astype(np.float32)
+        ctx.observe("wide.assignment", kind)
+        R.update(out=t, m2=m2, label=kind.split(":")[0] + "=", src=None)
+        return R
+    if op == "w_obs_other":
+        # the object with its history in ONE role of a precentered rmsd, a freshly centred trajectory in the other
+        o, _ = make(rng, 3, na, False, top=t.topology, ids=m["ids"], sym=symok)
+        o.center_coordinates()
+        role = "reference" if rng.random() < 0.6 else "target"
+        fr = int(rng.integers(0, nf)) if role == "reference" else int(rng.integers(0, 3))
+        raw_t, raw_o = np.array(t.xyz, copy=True), np.array(o.xyz, copy=True)
+        had = t._rmsd_traces is not None
+        hist["ops"].append(f"obs_rmsd(object as {role})")
+        with warnings.catch_warnings():
+            warnings.simplefilter("ignore")
+            try:
+                got = (md.rmsd(o, t, fr, precentered=True) if role == "reference" else md.rmsd(t, o, fr, precentered=True)).astype(np.float64) ** 2
+            except Exception as e:
+                ctx.violation("traces.precentered-vs-scratch", f"rmsd(precentered=True,object-as-{role}):raises:{type(e).__name__}", f"after {hist['ops']}: {e!r}")
+                return None
+        a, b = (raw_o, raw_t[fr:fr + 1]) if role == "reference" else (raw_t, raw_o[fr:fr + 1])
+        ref = msd_scratch(a, b)
+        c = a.astype(np.float64) - a.astype(np.float64).mean(axis=1, keepdims=True)
+        cb = b[0].astype(np.float64) - b[0].astype(np.float64).mean(axis=0)
+        off = float(max(np.abs(a).max(), np.abs(b).max()))
+        tol = 2e-4 * ((c ** 2).sum(axis=(1, 2)) + (cb ** 2).sum()) / na + 1e-9 + 64 * (2.0 ** -24 * off) ** 2
+        ctx.observe("precentered_call", f"object as {role} only: " + ("cached-traces" if had else "no-traces(fallback)"))
+        flat = _flat_frames(c) | bool(_flat_frames(cb[None])[0])
+        badf = np.abs(got - ref) > tol if got.shape == ref.shape else np.ones(1, bool)
+        if flat.any() and got.shape == ref.shape:
+            ctx.skip("traces.precentered-vs-scratch", "planar or collinear frame: QCP root conditioning ~ sqrt(eps32), not decidable at this tolerance", int(flat.sum()))
+            badf = badf & ~flat
+        if badf.any():
+            cause = next((x for x in reversed(hist["since_center"])), "none")
+            ctx.violation("traces.precentered-vs-scratch", (f"stale-rmsd-traces-after:{cause}" if had else f"rmsd(precentered=True):no-traces:wrong-after:{cause}"),
+                          f"rmsd(precentered=True) with the object as {role} differs from rmsd from scratch after {hist['ops']}")
+            hist["last_obs_ok"] = False
+        elif not flat.all():
+            ctx.ok("traces.precentered-vs-scratch")
+        if not np.array_equal(t.xyz, raw_t):
+            mv = np.asarray(t.xyz, np.float64) - raw_t
+            if np.abs(mv - mv[:, :1]).max() <= 1e-5 * max(1.0, off):
+                m["xyz"] = np.array(t.xyz, copy=True)
+            else:
+                ctx.violation("traces.precentered-modifies", "rmsd(precentered=True):distorts-xyz", "rmsd changed the coordinates by more than a per-frame translation")
+        check_fields(ctx, t, m, f"rmsd(precentered=True, object as {role})", exact=True)
+        return None
+    if op == "w_obs_analysis":
+        # anything derived from the arrays must be what a Trajectory built from scratch from the same arrays gives
+        fresh = _fresh_from_model(t, m)
+        pairs = rng.integers(0, na, (6, 2))
+        # (hash()/== of Trajectory are not observed here: __hash__ mixes in the array STRIDES, so t[3] != t[3:4] by construction)
+        obs = {"unitcell_vectors": lambda x: x.unitcell_vectors, "unitcell_volumes": lambda x: x.unitcell_volumes,
+               "compute_distances": lambda x: md.compute_distances(x, pairs), "compute_displacements": lambda x: md.compute_displacements(x, pairs),
+               "compute_rg": lambda x: md.compute_rg(x), "compute_center_of_mass": lambda x: md.compute_center_of_mass(x), "n_frames/len": lambda x: np.array([x.n_frames, len(x), x.n_atoms]),
+               "timestep": lambda x: np.array(x.timestep) if x.n_frames > 1 else None,
+               "compute_distances(opt=False)": lambda x: md.compute_distances(x, pairs, opt=False)}
+        hist["ops"].append("obs_analysis")
+        for nm, f in obs.items():
+            try:
+                a = f(t)
+            except Exception as e:
+                try:
+                    f(fresh)
+                except Exception:
+                    ctx.skip("observer.analysis-vs-scratch", f"{nm} refuses this trajectory")
+                    continue
+                ctx.violation("observer.analysis-vs-scratch", f"{nm}:raises-on-object-with-history:{type(e).__name__}", f"{nm} raises {e!r} after {hist['ops']} but works on a fresh Trajectory with the same arrays")
+                continue
+            b = f(fresh)
+            same = (a is None and b is None) or (a is not None and b is not None and np.asarray(a).shape == np.asarray(b).shape and np.array_equal(np.asarray(a), np.asarray(b), equal_nan=True))
+            if same:
+                ctx.ok("observer.analysis-vs-scratch")
+            else:
+                cause = next((x for x in reversed(hist["ops"]) if not x.startswith("obs_")), "none")
+                ctx.violation("observer.analysis-vs-scratch", f"{nm}:differs-from-fresh-trajectory-after:{cause}", f"{nm} on the object differs from {nm} on a fresh Trajectory with the same arrays after {hist['ops']}")
+        check_fields(ctx, t, m, "analysis observers", exact=True)
+        return None
+    raise AssertionError(op)
+
 
 def run_case(case, ctx):
     if case["kind"] == "immutable":
@@ -314,18 +940,22 @@ def run_case(case, ctx):
     rng = common.rng_for("C03h", case["seed"])
     sym = case.get("sym", True)
     n_atoms0 = 2 * case["n_pairs"] + (0 if sym else case.get("odd", 0))
-    t, m = make(rng, case["n_frames"], n_atoms0, case["cell"], sym=sym)
+    wide = case.get("alphabet") == "wide"
+    ops_all = OPS_WIDE if wide else OPS
+    t, m = make(rng, case["n_frames"], n_atoms0, case["cell"], sym=sym, wide=wide)
     ctx.observe("construction", "centro-symmetric" if sym else f"arbitrary(n_atoms%4={n_atoms0 % 4})")
+    ctx.observe("alphabet", "wide" if wide else "original")
     base_top, base_ids = t.topology, list(m["ids"])
-    hist = dict(ops=[], rng=rng, centered_once=False, since_center=[])
+    hist = dict(ops=[], rng=rng, centered_once=False, since_center=[], ctx=ctx)
     if not check_fields(ctx, t, m, "construct"):
         return
     forced = ["center"] if rng.random() < 0.65 else []
     for step in range(case["length"]):
-        op = forced.pop() if forced else OPS[int(rng.integers(len(OPS)))]
+        op = forced.pop() if forced else ops_all[int(rng.integers(len(ops_all)))]
         nf, na = m["xyz"].shape[:2]
         src = t
         label = op
+        memcheck, after = True, None
         try:
             if op in ("int", "negint"):
                 k = int(rng.integers(0, nf))
@@ -473,7 +1103,7 @@ def run_case(case, ctx):
                 strict, exact, src = False, True, None
             elif op == "remove_solvent":
                 inplace = bool(rng.random() < 0.3)
-                keep = [a.index for a in t.topology.atoms if a.residue.name != "HOH"]
+                keep = [a.index for a in t.topology.atoms if a.residue.name not in ("HOH", "NA", "CL")]  # NA / CL only occur in the wide topologies
                 if len(keep) < 4 or len(keep) == na:
                     continue
                 out = t.remove_solvent(inplace=inplace)
@@ -507,6 +1137,12 @@ def run_case(case, ctx):
                     out, m2 = t, dict(m, L=L, A=A)
                     label = "unitcell_lengths/angles="
                 strict, exact, src = False, True, None
+            elif op.startswith("w_"):
+                r = _wide_op(ctx, t, m, op, rng, hist, step, sym)
+                if r is None:
+                    continue
+                out, m2, label, strict, exact, src = r["out"], r["m2"], r["label"], r.get("strict", False), r.get("exact", True), r.get("src", t)
+                memcheck, after = r.get("memcheck", True), r.get("after")
             else:  # obs_rmsd
                 hist["ops"].append("obs_rmsd")
                 observe_rmsd(ctx, t, m, hist)
@@ -524,14 +1160,16 @@ def run_case(case, ctx):
         if not check_fields(ctx, out, m2, label, exact=exact):
             return
         if src is not None and out is not src:
-            if op == "slice_nocopy":
-                ctx.skip("memory.xyz", "slice(copy=False) shares data by documented design")
+            if op == "slice_nocopy" or not memcheck:
+                ctx.skip("memory.xyz", "slice(copy=False) / copy.copy share data by documented design")
             else:
                 check_memory(ctx, out, src, label, strict)
             # the source must be untouched by a non-inplace operation
             if not check_fields(ctx, src, m, label + ":source", exact=True):
                 return
         t, m = out, m2
+        if after is not None and after(t, m) is False:
+            return
         if rng.random() < 0.35:
             hist["ops"].append("obs_rmsd")
             observe_rmsd(ctx, t, m, hist)
@@ -632,6 +1270,64 @@ def _fns():
     F["lprmsd"] = (lambda t: md.lprmsd(t, _fresh(t), 0, atom_indices=ca(t)), ("xyz",))
     for ext in ("h5", "xtc", "trr", "dcd", "nc", "pdb", "gro", "xyz", "lammpstrj", "mdcrd", "pdb.gz"):
         F[f"save({ext})"] = ((lambda e: (lambda t: t.save(os.path.join(tempfile.mkdtemp(dir=_TMP), "x." + e))))(ext), ())
+    # ---- wider table (IMMUTABLE_WIDE): public analysis / save entry points and option values the table above never calls
+    from mdtraj.geometry import alignment
+    charges = lambda t: np.array([((i * 7) % 5 - 2) * 0.2 for i in range(t.n_atoms)])
+    groups = lambda t: [[a.index for a in r.atoms] for r in list(t.topology.residues)[:6]]
+    tp = np.array([[0, 1], [0, 3], [2, 5]])
+    F["acylindricity"] = (lambda t: md.acylindricity(t), ())
+    F["relative_shape_antisotropy"] = (lambda t: md.relative_shape_antisotropy(t), ())
+    F["compute_chi2"] = (lambda t: md.compute_chi2(t), ())
+    F["compute_chi3"] = (lambda t: md.compute_chi3(t), ())
+    F["compute_chi4"] = (lambda t: md.compute_chi4(t), ())
+    F["compute_J3_HN_HA"] = (lambda t: md.compute_J3_HN_HA(t), ())
+    F["compute_directors"] = (lambda t: md.compute_directors(t, indices=groups(t)), ())
+    F["compute_nematic_order"] = (lambda t: md.compute_nematic_order(t, indices=groups(t)), ())
+    F["compute_nematic_order(residues)"] = (lambda t: md.compute_nematic_order(t, indices="residues"), ())
+    F["compute_distances_t"] = (lambda t: md.compute_distances_t(t, pairs(t), tp), ())
+    F["compute_distances_t(opt=False)"] = (lambda t: md.compute_distances_t(t, pairs(t), tp, opt=False), ())
+    F["compute_rdf_t"] = (lambda t: md.compute_rdf_t(t, pairs(t), tp, r_range=(0, 1)), ())
+    F["dipole_moments"] = (lambda t: md.dipole_moments(t, charges(t)), ())
+    F["static_dielectric"] = (lambda t: md.static_dielectric(t, charges(t), 300.0), ())
+    F["isothermal_compressability_kappa_T"] = (lambda t: md.isothermal_compressability_kappa_T(t, 300.0), ())
+    F["density(masses)"] = (lambda t: md.density(t, masses=np.ones(t.n_atoms)), ())
+    F["compute_center_of_mass(select)"] = (lambda t: md.compute_center_of_mass(t, select="name CA"), ())
+    F["compute_contacts(sidechain-heavy)"] = (lambda t: md.compute_contacts(t, [[1, 6], [2, 9]], scheme="sidechain-heavy"), ())
+    F["compute_contacts(closest,periodic=False)"] = (lambda t: md.compute_contacts(t, [[0, 5], [2, 9]], scheme="closest", periodic=False), ())
+    F["compute_neighbors(haystack)"] = (lambda t: md.compute_neighbors(t, 0.5, ca(t)[:5], haystack_indices=ca(t)[5:], periodic=False), ())
+    F["compute_neighborlist(frame=1)"] = (lambda t: md.compute_neighborlist(t, 0.4, frame=1, periodic=False), ())
+    F["shrake_rupley(get_mapping)"] = (lambda t: md.shrake_rupley(t[:2], n_sphere_points=30, mode="residue", get_mapping=True), ())
+    F["compute_dssp(simplified=False)"] = (lambda t: md.compute_dssp(t, simplified=False), ())
+    F["baker_hubbard(periodic=False)"] = (lambda t: md.baker_hubbard(t, periodic=False, freq=0.3), ())
+    F["compute_drid(all)"] = (lambda t: md.compute_drid(t.atom_slice(ca(t))), ())
+    F["find_closest_contact(frame=2)"] = (lambda t: md.find_closest_contact(t, [0, 1, 2], [50, 51], frame=2, periodic=False), ())
+    F["compute_average_structure(xyz)"] = (lambda t: alignment.compute_average_structure(t.xyz[:, :40]), ())
+    F["alignment.rmsd_qcp(xyz)"] = (lambda t: alignment.rmsd_qcp(t.xyz[0, :40], t.xyz[1, :40]), ())
+    F["rmsf(ref=None)"] = (lambda t: md.rmsf(t, None), ("xyz",))
+    F["rmsd(ref_atom_indices)"] = (lambda t: md.rmsd(t, _fresh(t), 0, atom_indices=ca(t), ref_atom_indices=ca(t)[::-1].copy()), ("xyz",))
+    F["rmsd(reference=self)"] = (lambda t: md.rmsd(t, t, 1), ("xyz",))
+    F["rmsd(parallel=False)"] = (lambda t: md.rmsd(t, _fresh(t), 0, parallel=False), ("xyz",))
+    F["superpose(target=input)"] = (lambda t: t.superpose(_fresh(t), 0), ("xyz",))
+    F["center_coordinates"] = (lambda t: t.center_coordinates(), ("xyz",))
+    F["center_coordinates(mass_weighted)"] = (lambda t: t.center_coordinates(mass_weighted=True), ("xyz",))
+    F["make_molecules_whole(inplace=True)"] = (lambda t: t.make_molecules_whole(inplace=True), ("xyz",))
+    F["image_molecules(inplace=True)"] = (lambda t: t.image_molecules(inplace=True, anchor_molecules=[set(t.topology.atoms)], other_molecules=[]), ("xyz",))
+    F["image_molecules(inplace=False,anchor_molecules)"] = (lambda t: t.image_molecules(inplace=False, anchor_molecules=[set(list(t.topology.atoms)[:200])],
+                                                                                         other_molecules=[set(list(t.topology.atoms)[200:])], make_whole=False), ())
+    F["smooth(order=1)"] = (lambda t: t.smooth(3, order=1, atom_indices=[0, 3, 5]), ())
+    F["smooth(inplace=True)"] = (lambda t: t.smooth(3, order=1, inplace=True), ("xyz",))
+    F["slice(copy=False)"] = (lambda t: t.slice(slice(1, 4), copy=False), ())
+    F["str/repr/len"] = (lambda t: (str(t), repr(t).split(" at 0x")[0], len(t), t.timestep, t.n_residues, t.n_chains), ())
+    F["eq"] = (lambda t: t == _fresh(t), ())
+    F["topology.queries"] = (lambda t: (t.topology.find_molecules(), t.topology.select_pairs("name CA", "name N"), t.topology.to_fasta(),
+                                        t.topology.select_atom_indices("heavy"), t.topology.select_atom_indices("minimal")), ())
+    F["pickle"] = (lambda t: __import__("pickle").dumps(t), ())
+    F["deepcopy"] = (lambda t: __import__("copy").deepcopy(t), ())
+    F["save_pdb(bfactors,ter=False)"] = (lambda t: t.save_pdb(os.path.join(tempfile.mkdtemp(dir=_TMP), "x.pdb"), bfactors=np.arange(t.n_atoms) % 50, ter=False), ())
+    F["save_gro(precision=5)"] = (lambda t: t.save_gro(os.path.join(tempfile.mkdtemp(dir=_TMP), "x.gro"), precision=5), ())
+    F["save_hdf5(mode=a)"] = (lambda t: t.save_hdf5(os.path.join(tempfile.mkdtemp(dir=_TMP), "x.h5"), mode="a"), ())
+    for ext in ("ncrst", "rst7", "dtr", "netcdf", "crd", "xyz.gz"):
+        F[f"save({ext})"] = ((lambda e: (lambda t: t.save(os.path.join(tempfile.mkdtemp(dir=_TMP), "x." + e))))(ext), ())
     return F
 
 
@@ -654,6 +1350,18 @@ IMMUTABLE_NAMES = ["compute_distances", "compute_distances(opt=False)", "compute
 
 
 IN_PLACE_DOCUMENTED = {"rmsd(ref=input)", "rmsd(target=input)", "rmsd(atom_indices)", "rmsf", "lprmsd"}
+IMMUTABLE_WIDE = ["acylindricity", "relative_shape_antisotropy", "compute_chi2", "compute_chi3", "compute_chi4", "compute_J3_HN_HA", "compute_directors",
+                  "compute_nematic_order", "compute_nematic_order(residues)", "compute_distances_t", "compute_distances_t(opt=False)", "compute_rdf_t",
+                  "dipole_moments", "static_dielectric", "isothermal_compressability_kappa_T", "density(masses)",
+                  "compute_center_of_mass(select)", "compute_contacts(sidechain-heavy)", "compute_contacts(closest,periodic=False)",
+                  "compute_neighbors(haystack)", "compute_neighborlist(frame=1)", "shrake_rupley(get_mapping)", "compute_dssp(simplified=False)",
+                  "baker_hubbard(periodic=False)", "compute_drid(all)", "find_closest_contact(frame=2)", "compute_average_structure(xyz)",
+                  "alignment.rmsd_qcp(xyz)", "rmsf(ref=None)", "rmsd(ref_atom_indices)", "rmsd(reference=self)", "rmsd(parallel=False)",
+                  "superpose(target=input)", "center_coordinates", "center_coordinates(mass_weighted)", "make_molecules_whole(inplace=True)",
+                  "image_molecules(inplace=True)", "image_molecules(inplace=False,anchor_molecules)", "smooth(order=1)", "smooth(inplace=True)", "slice(copy=False)", "str/repr/len", "eq", "topology.queries", "pickle", "deepcopy",
+                  "save_pdb(bfactors,ter=False)", "save_gro(precision=5)", "save_hdf5(mode=a)"] + [f"save({e})" for e in ("ncrst", "rst7", "dtr", "netcdf", "crd", "xyz.gz")]
+IN_PLACE_WIDE = {"rmsf(ref=None)", "rmsd(ref_atom_indices)", "rmsd(reference=self)", "rmsd(parallel=False)", "superpose(target=input)", "center_coordinates",
+                 "center_coordinates(mass_weighted)", "make_molecules_whole(inplace=True)", "image_molecules(inplace=True)", "smooth(inplace=True)"}
 
 
 def _canon(x, h):
@@ -688,6 +1396,11 @@ def _result_digest(name, t):
         path = os.path.join(d, "x." + ext)
         t.save(path)
         from vlib.gen import files as vfiles
+        if ext not in vfiles.FORMATS:  # formats of the wider table (restart files are numbered per frame): what was written, by name and size
+            def _sizes(root):
+                return sorted((os.path.relpath(os.path.join(dp, f), root), os.path.getsize(os.path.join(dp, f))) for dp, _, fs in os.walk(root) for f in fs)
+            h.update(repr(_sizes(d)).encode())
+            return h.hexdigest()
         kw = {} if vfiles.FORMATS[ext]["self_top"] else {"top": t.topology}
         _canon(md.load(path, **kw), h)
     else:
